@@ -61,6 +61,12 @@ Theorem C01_one_task_per_address : forall m,
   (forall m' a, spawn_peer m = (m', [SpPeer a]) -> pget (m_peers m) a = None) /\
   (snd (spawn_peer m) = [] \/ exists a, snd (spawn_peer m) = [SpPeer a]).
 Proof. intros m. split; [intros m' a; apply spawn_only_absent | apply spawn_at_most_one]. Qed.
+(* ... and for a whole tracker answer (candidates left over from earlier answers included): the addresses it connects to
+   are pairwise distinct and had no entry *)
+Theorem C01_tracker_answer_one_task_per_address : forall m peers,
+  let sp := spawned_addrs (snd (handle_tracker_resp m peers)) in
+  NoDup sp /\ forall a, In a sp -> pget (m_peers m) a = None.
+Proof. exact tracker_resp_one_task_per_address. Qed.
 (* non-vacuity: a reachable composition (handshake, Have, Unchoke with assignment) in which the task assembles
    piece 0 and its PieceDone makes the manager mark and broadcast piece 0 *)
 Example C01_composition_nonvacuous :
@@ -83,3 +89,4 @@ Print Assumptions C01_pair_invariant.
 Print Assumptions C01_marked_is_verified.
 Print Assumptions C01_env_steps.
 Print Assumptions C01_one_task_per_address.
+Print Assumptions C01_tracker_answer_one_task_per_address.
